@@ -197,23 +197,19 @@ func (fs *ReaderFS) readProcessFile(
 	}
 
 	if info.IsDir() {
-		// assume dir does not exist yet, then chmod if it does exist
-		wg.Add(1)
-		go func() { // continue prepping dir in the background
-			defer wg.Done()
-			err := fs.unarchiveFS.Mkdir(p, info.Mode())
-			if err != nil {
-				if !errors.Is(err, hackpadfs.ErrExist) {
-					errs <- fserrors.WithMessage(err, "copying dir")
-					return
-				}
-				err = fs.unarchiveFS.Chmod(p, info.Mode())
-				if err != nil {
-					errs <- fserrors.WithMessage(err, "copying dir")
-					return
-				}
+		// assume dir does not exist yet, then chmod if it does exist.
+		// This runs in the foreground: a background Mkdir races with the next entry's mkdirAll of the same directory,
+		// which can replace the mode set here with its default.
+		err := fs.unarchiveFS.Mkdir(p, info.Mode())
+		if err != nil {
+			if !errors.Is(err, hackpadfs.ErrExist) {
+				return fserrors.WithMessage(err, "copying dir")
 			}
-		}()
+			err = fs.unarchiveFS.Chmod(p, info.Mode())
+			if err != nil {
+				return fserrors.WithMessage(err, "copying dir")
+			}
+		}
 		return nil
 	}
 
